@@ -841,6 +841,12 @@ class Manager:
         if self._timer is not None:
             self._timer.cancel()
             self._timer = None
+        # Outbound is the transport's registered (streaming) producer. If it
+        # is paused when the send buffer drains, the transport resumes it
+        # instead of finishing the close; with nothing more to write,
+        # connectionLost would then never arrive and we would sit here
+        # forever. Let go of the transport before asking it to close.
+        self._outbound.abandon_connection()
         self._connection.disconnect()  # let connection_lost do cleanup
 
     @m.output()
